@@ -265,6 +265,9 @@ _EXT_EXC_PARENTS = {
 }
 
 
+_CONTAINER_MUTATORS = {"append", "extend", "insert", "update", "setdefault", "pop", "popitem", "clear", "add", "discard", "remove"}
+
+
 class Frame:
     __slots__ = ("fn", "self_cls", "no", "nonlocals", "cellvars")
 
@@ -281,9 +284,19 @@ class Frame:
         self.cellvars: Set[str] = set()
         for n in ast.walk(fn.node):
             if n is not fn.node and isinstance(n, (ast.FunctionDef, ast.AsyncFunctionDef)):
+                own = {a.arg for a in n.args.args + n.args.kwonlyargs + n.args.posonlyargs} | {x.id for x in ast.walk(n) if isinstance(x, ast.Name) and isinstance(x.ctx, ast.Store)}
                 for m in walk_shallow(n):
                     if isinstance(m, ast.Nonlocal):
                         self.cellvars.update(m.names)
+                    # ... or whose object it changes in place (`box[0] = v`, `state["k"] = v`, `seen.append(v)`): the contents
+                    # read by the enclosing function afterwards are the closure's, not the literal it was created from
+                    tgt = None
+                    if isinstance(m, (ast.Subscript, ast.Attribute)) and isinstance(m.ctx, (ast.Store, ast.Del)) and isinstance(m.value, ast.Name):
+                        tgt = m.value.id
+                    elif isinstance(m, ast.Call) and isinstance(m.func, ast.Attribute) and isinstance(m.func.value, ast.Name) and m.func.attr in _CONTAINER_MUTATORS:
+                        tgt = m.func.value.id
+                    if tgt is not None and tgt not in own:
+                        self.cellvars.add(tgt)
         self.cellvars -= self.nonlocals
 
 
